@@ -795,6 +795,13 @@ def export_rules(ctx, name, keyty, qubo):
     vals.update(subset_assumptions(ctx, body,
                                    used_of_objective,
                                    lambda b: b.has_call(r'impl v1::Instance>::binary_ids') and not b.has_field(INST, 'objective')))
+    frags = inline_pair_fragments(ctx, body, keyty) if qubo else []
+    inline_ok = bool(frags) and all(f[1] for f in frags)
+    inline_sites = set().union(*[f[3] for f in frags]) if inline_ok else set()
+    inline_bails = set().union(*[f[4] for f in frags]) if inline_ok else set()
+    if inline_ok:
+        if not hasattr(ctx, 'c11_inline_sites'): ctx.c11_inline_sites = set()
+        ctx.c11_inline_sites |= {(body.name, bi) for bi in inline_sites}
     if qubo:
         for c in body.calls:
             if re.search(CONV_PAIR, c.name) and not c.dst['p']: vals[(c.bb, c.dst['l'])] = 'Result::Ok'
@@ -803,6 +810,7 @@ def export_rules(ctx, name, keyty, qubo):
     for V in sorted(allowed):
         ctx.counters['cfg_paths'] += 1
         extra |= SP.reach(V, [0], more_vals=vals) & body.err_exits()
+    extra -= inline_bails          # "every term has at most two distinct variables": the in-place conversion takes one of its Ok arms
     ctx.check(not extra, R + '/guard/only-stated-refusals', 'T-GUARD', body.name,
               'the export is refused although no active constraint remains, the sense is not Maximize, only binary variables are used%s: Err-exit at %s'
               % (' and every term has at most two distinct variables' if qubo else '', [body.site(b) for b in sorted(extra)][:3]), body.site(min(extra)) if extra else body.site())
@@ -863,13 +871,21 @@ def export_rules(ctx, name, keyty, qubo):
     ctx.check(not restr, R + '/loop/all-items', 'T-LOOPMUST', body.name, 'the term iterator is restricted by %s' % sorted(restr), body.site(nextc.bb))
     # keys only through the canonicalising constructors
     aggs = [bi for bi, st in body.stmts() if st['rv']['k'] == 'agg' and re.search(r'sorted_ids::Binary(Ids|IdPair)$', st['rv']['adt'])]
-    ctx.check(not aggs, R + '/keys/no-direct-construction', 'T-CARRY', body.name, 'key constructed directly at %s' % [body.site(b) for b in aggs], body.site())
+    aggs = [bi for bi in aggs if bi not in inline_sites]          # a construction in place that satisfies the canonical-pair clauses is a conversion
+    badfr = [f for f in frags if not f[1]]
+    ctx.check(not aggs, R + '/keys/no-direct-construction', 'T-CARRY', body.name, 'key constructed directly at %s%s' % ([body.site(b) for b in aggs],
+              ('; the in-place conversion fails: ' + ', '.join(badfr[0][2])) if badfr else ''), body.site())
     conv = CONV_PAIR if qubo else CONV_SET
-    badk = [c for c in W if not (sl(c.args[KEYED[c.item]]).has_call(conv) and from_item(sl(c.args[KEYED[c.item]])))]
+    inline_locals = {st['dst']['l'] for bi, st in body.stmts() if bi in inline_sites and st['rv']['k'] == 'agg' and st['rv']['adt'].endswith('sorted_ids::BinaryIdPair')}
+    def key_ok(ks): return from_item(ks) and (ks.has_call(conv) or bool(inline_locals & ks.locals))
+    badk = [c for c in W if not key_ok(sl(c.args[KEYED[c.item]]))]
     ctx.check(not badk, R + '/keys/from-term-ids', 'T-CARRY', body.name, 'map key is not the canonicalised id set of the term', body.site((badk or W)[0].bb), sites=len(W))
     if qubo:
         tf = [c for c in body.calls if re.search(CONV_PAIR, c.name) and any(c.bb in l_[4] for l_ in stage_loops) and any_item(sl(c.args[0]))]
-        ctx.check(len(tf) >= 1, R + '/guard/degree/try_from', 'T-GUARD', body.name, 'BinaryIdPair::try_from not called', body.site())
+        ctx.check(len(tf) >= 1 or inline_ok, R + '/guard/degree/try_from', 'T-GUARD', body.name, 'BinaryIdPair::try_from not called', body.site())
+        if inline_ok and not tf:
+            # the degree refusal is the bail of the in-place conversion: lengths other than 1 / 2 reach only Err-exits (decided by the fragment clauses)
+            ctx.ok(R + '/guard/degree/propagates', 'T-ERRFLOW', body.site(min(inline_bails)), how='bail of the in-place conversion')
         # path formulation of `?` / match / let-else / map_err..: if try_from returns Err, no Ok-exit is reachable
         leaks = []
         for c in tf:
@@ -1239,14 +1255,19 @@ THROUGH = re.compile(r'::(deref|deref_mut|as_slice|as_mut_slice|as_ref|as_mut|bo
 class PairShape:
     """symbolic walk of the (loop-free) body of try_from(ids): which lengths of `ids` reach which exit,
     which element of `ids` an operand is, which order facts hold on the way"""
-    def __init__(self, ctx, body, root=1):
-        self.ctx = ctx; self.b = body; self.root = root
-        self.unknown_tests = set()
+    def __init__(self, ctx, body, root=1, root_pred=None, start=0, ok_bbs=None, stop=()):
+        """whole function (ids = parameter `root`), or a FRAGMENT of a body: ids = whatever satisfies root_pred(slice), walked from block
+        `start`, "Ok" = reaching a block of ok_bbs, not continuing into `stop`"""
+        self.ctx = ctx; self.b = body; self.root = root; self.root_pred = root_pred
+        self.start = start; self.ok_bbs = ok_bbs; self.stop = set(stop)
+        self.unknown_tests = set(); self.err_lens_by_bb = {}
         self._from_root = {}
 
     def from_root(self, l):
+        if l is None: return False
         if l not in self._from_root:
-            self._from_root[l] = self.root in self.ctx.S.backslice(self.b, [l]).params
+            sl_ = self.ctx.S.backslice(self.b, [l])
+            self._from_root[l] = self.root_pred(sl_) if self.root_pred is not None else (self.root in sl_.params)
         return self._from_root[l]
 
     # ---- what is this place?
@@ -1387,9 +1408,9 @@ class PairShape:
 
     def walk(self):
         """returns (ok_lens, err_lens, pair sites [(bb, stmt, lens, facts)])"""
-        b = self.b; oks = b.strict_ok_exits(); errs = b.err_exits()
+        b = self.b; oks = b.strict_ok_exits() if self.ok_bbs is None else set(self.ok_bbs); errs = b.err_exits()
         ok_lens = set(); err_lens = set(); pairs = []
-        seen = set(); work = [(0, DOM, frozenset(), frozenset())]
+        seen = set(); work = [(self.start, DOM, frozenset(), frozenset())]
         tracked = T._cp_tracked(b)
         while work:
             bi, lens, facts, env = work.pop()
@@ -1407,7 +1428,9 @@ class PairShape:
                 elif rv['k'] == 'un' and rv['op'] == 'Not' and o['k'] in ('copy', 'move') and o['pl']['l'] in e: e[d['l']] = not e[o['pl']['l']]
                 else: e.pop(d['l'], None)
             if bi in oks: ok_lens |= lens
-            if bi in errs: err_lens |= lens
+            if bi in errs:
+                err_lens |= lens; self.err_lens_by_bb.setdefault(bi, set()).update(lens)
+            if self.ok_bbs is not None and bi in oks: continue          # fragment: the key has reached its use
             t = blk['term']; nxt = []
             if t['k'] == 'call':
                 c = [y for y in b.calls if y.bb == bi]
@@ -1447,7 +1470,7 @@ class PairShape:
                 for s in b.succ(bi): nxt.append((s, lens, facts))
             fe = frozenset(e.items())
             for s, ls, fs in nxt:
-                if b.blocks[s]['cleanup'] or not ls: continue
+                if b.blocks[s]['cleanup'] or not ls or s in self.stop: continue
                 work.append((s, frozenset(ls), fs, fe))
         return ok_lens, err_lens, pairs
 
@@ -1539,6 +1562,51 @@ def canonical_pair_clauses(ctx, b, src_sorted, src_dedup):
     return out
 
 
+def inline_pair_fragments(ctx, body, keyty):
+    """KEY BUILT IN PLACE: a loop of the exporter that constructs BinaryIdPair values itself from the item's ids is one more member of
+    the conversion family.  The canonical-pair clauses are decided on the loop-body fragment, rooted at the item's ids:
+       sorted      a sort of the ids dominating every construction, or the ids come out of a SortedIds (into_inner / deref) and the
+                   SortedIds invariant holds crate-wide
+       dedup       a dedup* of the ids dominating every construction
+       from-ids    both fields are elements of the ids
+       lengths     the keyed writes are reached exactly for 1 or 2 (distinct) ids; an unrecognised test on the ids fails closed
+       error       the other lengths end in an Err-exit (the degree refusal of this exporter)
+       ordered     (ids[i], ids[j]) with i <= j, or a comparison on the way
+    Returns [(loop, ok?, problems, construction bbs, bail Err-exits)]."""
+    typed_map = is_map_of(keyty)
+    out = []
+    for lo in T.for_loops(body):
+        nextc, header, some_bb, none_bb, blocks = lo
+        sites = [bi for bi, st in body.stmts() if bi in blocks and st['rv']['k'] == 'agg' and st['rv']['adt'].endswith('sorted_ids::BinaryIdPair')]
+        if not sites: continue
+        wb = {c.bb for c in body.calls if c.bb in blocks and typed_map(c) and 'BTreeMap::<' in c.name and c.item in ('entry', 'insert', 'get_mut')}
+        sh = PairShape(ctx, body, root_pred=lambda s_, nx=nextc: nx in s_.call_objs, start=some_bb, ok_bbs=wb, stop={header})
+        ok_lens, err_lens, pairs = sh.walk(); ctx.counters['cfg_paths'] += 1
+        pairs = [x for x in pairs if x[0] in blocks]
+        pbbs = {x[0] for x in pairs}
+        prob = []
+        idcalls = [c for c in body.calls if c.bb in blocks and c.args and c.args[0]['k'] in ('copy', 'move') and sh.from_root(c.args[0]['pl']['l'])]
+        dom_all = lambda c: all(body.dominates(c.bb, pb) for pb in pbbs)
+        from_sorted = any(re.search(r'sorted_ids::SortedIds::into_inner$|<sorted_ids::SortedIds as std::ops::Deref>::deref$', c.name) and dom_all(c) for c in idcalls)
+        if not any(c.item in LEN_KEEPING[:7] and dom_all(c) for c in idcalls) and not (from_sorted and not sorted_ids_invariant(ctx)): prob.append('sorted')
+        if not any(c.item in ('dedup', 'dedup_by', 'dedup_by_key') and dom_all(c) for c in idcalls): prob.append('dedup')
+        if not pairs or not all(all(o['k'] in ('copy', 'move') and sh.from_root(o['pl']['l']) for o in st['rv']['ops']) for bi, st, ls, fs in pairs): prob.append('from-ids')
+        if set(ok_lens) != {1, 2}: prob.append('lengths %s%s' % (sorted(ok_lens), ' (unrecognised test)' if sh.unknown_tests else ''))
+        bails = {bb for bb, ls in sh.err_lens_by_bb.items() if not (set(ls) & {1, 2})}
+        if not bails: prob.append('other-lengths-error')
+        for bi, st, lens, facts in pairs:
+            rs = [sh.resolve(o['pl']) if o['k'] in ('copy', 'move') else None for o in st['rv']['ops']]
+            if len(rs) == 2 and all(r and r[0] == 'minmax' for r in rs):
+                if not (rs[0][1] == 'min' and rs[1][1] == 'max' and rs[0][2] == rs[1][2]): prob.append('ordered')
+                continue
+            if len(rs) != 2 or not all(r and r[0] in ('elem', 'opt') for r in rs): prob.append('ordered (operands not recognised)'); continue
+            A, B = rs[0][1], rs[1][1]
+            val = lambda p_, n: p_[1] if p_[0] == 's' else n - 1 - p_[1]
+            if not (all(val(A, n) <= val(B, n) for n in lens if n < 7) or (A, B) in facts or A == B): prob.append('ordered')
+        out.append((lo, not prob, sorted(set(prob)), set(sites), bails))
+    return out
+
+
 def pair_rules(ctx):
     """the three conversions into BinaryIdPair: each one either implements the canonicalisation itself (clauses above,
     relaxed by what its argument type guarantees) or hands a value derived from its argument to another conversion"""
@@ -1584,7 +1652,7 @@ def pair_rules(ctx):
     for fb in ctx.F.bodies.values():
         for bi, st in fb.stmts():
             if st['rv']['k'] == 'agg' and re.search(r'sorted_ids::Binary(Ids|IdPair)$', st['rv']['adt']):
-                if not re.search(r'sorted_ids::Binary(Ids|IdPair)', fb.hdr.get('self') or ''):
+                if not re.search(r'sorted_ids::Binary(Ids|IdPair)', fb.hdr.get('self') or '') and (fb.name, bi) not in getattr(ctx, 'c11_inline_sites', ()):
                     outside.append('%s@%s' % (fb.name, fb.site(bi)))
     ctx.check(not outside, R + '/constructed-only-in-impls', 'T-CARRY', 'crate', 'keys constructed outside their impls: %s' % outside[:4])
     fb = ctx.method(R + '/anchor/BinaryIds-from', 'sorted_ids::BinaryIds', 'from', trait='From', targs=['sorted_ids::SortedIds'])
